@@ -11,6 +11,8 @@ import SwimVerif.Proofs.ReconEqLeaves
 import SwimVerif.Proofs.ReconEqHash
 import SwimVerif.Model.ReconEqProto
 import SwimVerif.Proofs.ReconStruct
+import SwimVerif.Proofs.ReconEqFinal
+import SwimVerif.Proofs.ReconEqBlind
 
 namespace SwimVerif.ReconEq
 open SwimVerif.Recon
@@ -243,19 +245,94 @@ theorem C15_cmp_sound_partial (v w : Value) (h : veq v w = true) :
     incrementalCompare (stream (evsV v, .fin)) (stream (evsV w, .fin)) = some (veq v w) := by
   rw [h]; exact canonical_equal v w h
 
+/-! ## T5 — on the output of the three printers, for every well-formed value (floats and quoted attribute names
+included: `Value.wf` as widened by C09)
+
+The pushdown automaton of the model (`step` / `finalStep` / `runFrom`: nom streaming lexers, `Incomplete` at the end of
+the input, the final-segment parser) is run symbolically over `print st v` by a nested induction over the value
+(`Proofs/ReconEqPrinted.lean: rh_all`, the shape of C09's `ih_all'`; tokens by C09's `lexPrim_value` through the bridge
+`Proofs/ReconEqTok.lean`; the end of the document in `Proofs/ReconEqTop.lean: top_fin`). -/
+
+/-- What the modelled `ParseIterator` reads from the text any of the three printers gives for a well-formed value:
+exactly the value's event stream in the printers' layout (attribute bodies without braces where the printers leave
+them out), then the end — never an error, never out of fuel. -/
+theorem C15_parser_reads_printed (st : Style) (v : Value) (hw : v.wf = true) :
+    events (print st v) = (evsP v, .fin) := events_print st v hw
+
+/-- **The hash on printer output** (was `C15_hash_on_printed_open`).  For every well-formed value and every printer the
+`Hasher` calls of `recon_hash` (as modelled: the parser's events, `is_implicit_record` evaluated on the parser's actual
+remaining input at each `StartAttribute`, `has_next` as the iterator reports it) are the normal form `hnorm v`; hence
+equal values (`Value::eq`), printed by any two of the three printers, hash alike. -/
+theorem C15_hash_on_printed (s1 s2 : Style) (v w : Value) (hv : v.wf = true) (hw : w.wf = true)
+    (h : veq v w = true) :
+    hashCalls (print s1 v) = hnorm v ∧ hashCalls (print s1 v) = hashCalls (print s2 w) := by
+  have hc := hash_canonical (by decide) v w h
+  rw [hashCalls_print s1 v hv, hashCalls_print s2 w hw]
+  exact hc
+
+/-- **No false splits on printer output.**  Equal well-formed values, printed by any two of the three printers, compare
+equal under `compare_recon_values` (as modelled).  With `C15_cmp_true_only_moves_braces` this pins the comparator on
+everything the writers feed it: `true` for equal values, and `true` for unequal ones only if they differ in where braces
+stand (C15-N3). -/
+theorem C15_cmp_complete_on_printed (s1 s2 : Style) (v w : Value) (hv : v.wf = true) (hw : w.wf = true)
+    (h : veq v w = true) : compareRecon (print s1 v) (print s2 w) = true := compare_print s1 s2 v w hv hw h
+
+/-- No false splits in any one layout: for ALL values (not only `wf` ones) and any choice `ch` of which attribute bodies
+are written without braces (the same on both sides), the event streams of equal values compare `Some(true)`, and the
+validator reads either back to its initial state (never `Invalid`). -/
+theorem C15_cmp_complete_layouts (ch : List Char → Bool) (v w : Value) (h : veq v w = true) :
+    incrementalCompare (stream (evsG ch v, .fin)) (stream (evsG ch w, .fin)) = some true ∧
+    feedAll {} (evsG ch v) = {} := ⟨layout_equal v w h, feedAll_top_layout v⟩
+
+/-! ## C15-N3 — which brace moves are merged -/
+
+/-- **The mechanism of C15-N3, for ALL items** (the additive-size argument): in any context — any builder that is in
+its body on top, anything below — feeding the validator the items `ps` and then the record `{ ys }`, or the record
+`{ ps, ys }` (the same events with the `StartBody` moved left across `ps`), leaves two validators that
+`<ValueValidator as PartialEq>::eq` calls equal, whenever `ys` is not empty: it looks only at the keys, the `attrs` and
+the SUM of the item sizes of the builders (`stacksEq_sim`), and `Record(0, n).len = 1 + n` for `n ≥ 1`.  So once
+`incremental_compare` has skipped the `StartBody` on either side it cannot tell `p…, { ys }` from `{ p…, ys }`. -/
+theorem C15_validator_blind_to_brace_move (ps ys : Items) (hy : ys ≠ .nil) (key : KeyState) (a : Nat)
+    (c : ItemCollection) (rest : List BuilderState) :
+    (feedAll (S (F key true a c :: rest) none) (evsI ps ++ .startBody :: (evsI ys ++ [.endRecord]))).beq
+      (feedAll (S (F key true a c :: rest) none) (.startBody :: (evsI ps ++ (evsI ys ++ [.endRecord])))) = true :=
+  validator_blind_to_brace_move ps ys hy key a c rest
+
+/-- The edge of the merged class, on texts (first group: merged although the values differ; second group: told apart).
+Merged: an opening brace moved left across the items before it — in a record, in a slot value, in an attribute body
+that stays an implicit record.  Told apart: the same move when the inner record is empty (`Record(0,0).len = 2`), when
+it is a slot KEY (the pending key is compared exactly), when it changes the number of items of an attribute body
+between one and two, any move of a CLOSING brace, and adding / dropping a pair of braces. -/
+theorem C15_merged_class_edge :
+    (compareRecon "{1,{2},3}".toList "{{1,2},3}".toList = true ∧
+     compareRecon "{1,2,{3}}".toList "{1,{2,3}}".toList = true ∧
+     compareRecon "{a:1,{2}}".toList "{{a:1,2}}".toList = true ∧
+     compareRecon "{k:{1,{2}}}".toList "{k:{{1,2}}}".toList = true ∧
+     compareRecon "@a(1,{2},3)".toList "@a({1,2},3)".toList = true) ∧
+    (compareRecon "{1,{}}".toList "{{1}}".toList = false ∧
+     compareRecon "{{1},2}".toList "{1,{2}}".toList = false ∧
+     compareRecon "{{1},2}".toList "{{1,2}}".toList = false ∧
+     compareRecon "{1,{2}:3}".toList "{{1,2}:3}".toList = false ∧
+     compareRecon "@a(1,{2})".toList "@a({1,2})".toList = false ∧
+     compareRecon "{1,{2}}".toList "{1,2}".toList = false) := by decide +kernel
+
+/-- `compare_recon_values` is not transitive (so it is not the kernel of any normal form, and the merged class is not
+the equivalence generated by the brace move): each neighbouring pair below differs by one opening brace moved across the
+items before it and is merged, the two ends are told apart. -/
+theorem C15_compare_not_transitive :
+    compareRecon "{1,{2},{3}}".toList "{{1,2},{3}}".toList = true ∧
+    compareRecon "{{1,2},{3}}".toList "{{{1,2},3}}".toList = true ∧
+    compareRecon "{1,{2},{3}}".toList "{{{1,2},3}}".toList = false := by decide +kernel
+
 /-! ## open (tied by differential testing only) -/
 
-/-- No false splits: texts of equal values compare equal, whatever their layout (implicit / explicit attribute
-bodies, white space, separators, spellings). Neither the random engines nor the exhaustive small scope found a
-counterexample. -/
+/-- No false splits on ALL valid texts: texts of equal values compare equal, whatever their layout (implicit / explicit
+attribute bodies MIXED between the two sides, white space, separators, spellings).  Proved for printer output
+(`C15_cmp_complete_on_printed`) and for equal layouts (`C15_cmp_complete_layouts`); for arbitrary hand-written texts it
+needs the automaton on all of the grammar (not only on printed texts).  Neither the random engines nor the exhaustive
+small scope found a counterexample. -/
 def C15_cmp_complete_open : Prop :=
   ∀ a b : List Char, ∀ va vb : Value, parseValue a = some va → parseValue b = some vb → veq va vb = true →
     compareRecon a b = true
-
-/-- Equal values, printed by any two of the three printers, hash alike (no floats in `Value.wf`, so `-0.0` is excluded;
-the printers separate with `,` and write one spelling per string, so the scan of C15-N2 sees the same delimiters). -/
-def C15_hash_on_printed_open : Prop :=
-  ∀ (s1 s2 : Style) (v w : Value), v.wf = true → w.wf = true → veq v w = true →
-    hashCalls (print s1 v) = hashCalls (print s2 w)
 
 end SwimVerif.ReconEq
